@@ -217,6 +217,9 @@ func (ex *Exec) modelled(st *State, ref string, fn *types.Func, recv *Val, args 
 
 // lockOp updates the ghost lock state stored in the mutex's own location.
 func (ex *Exec) lockOp(st *State, recv *Val, op string, pos token.Pos) {
+	if !ex.lockCheck {
+		return
+	}
 	l := ex.derefLoc(st, recv)
 	if l == nil {
 		return
